@@ -192,7 +192,7 @@ def main():
         if r.violation:
             raise vlib.MachineryError("QueryPipeline with sound pruning violates %s (spec error, not a code verdict)\n%s"
                                       % (r.violation, "\n".join(r.cex[:40])))
-        for a in ("CreateWM", "Start", "TakeAny", "ScanAny", "FinishIface", "MergeOne", "Finish"):
+        for a in ("CreateWM", "Start", "Take", "Scan", "FinishIface", "MergeOne", "Finish"):
             vlib.require(r.coverage.get(a, (0, 0))[0] > 0, "vacuous: action %s never taken" % a)
         run.add_tlc(r, "QueryMC/" + size)
         for name in ("deep", "off"):
